@@ -64,6 +64,8 @@ type Report struct {
 	MergeFail    map[string]int
 }
 
+const maxModelsPerClause = 6
+
 func (p *Program) newInterp(x *exec) *interpreter {
 	i := &interpreter{
 		prog:    p.Prog,
@@ -224,7 +226,7 @@ func (p *Program) Explore(h *ssa.Function, opt Options) *Report {
 	active := 0
 	funcs := map[string]bool{}
 	assumes := map[string]bool{}
-	seenFail := map[string]bool{}
+	seenFail := map[string]int{}
 	witnessed := map[string]bool{}
 	cond := sync.NewCond(&mu)
 	stop := false
@@ -269,8 +271,15 @@ func (p *Program) Explore(h *ssa.Function, opt Options) *Report {
 				for _, f := range r.failures {
 					k := f.Clause + "|" + f.Known
 					rep.FailCount[k]++
-					if !seenFail[k] {
-						seenFail[k] = true
+					// up to maxModelsPerClause counterexamples per clause, from different paths: the
+					// native replay rig cannot realise every environment fault the stubs allow, so a
+					// clause is reported when any of its counterexamples reproduces
+					lim := maxModelsPerClause
+					if f.Known != "" {
+						lim = 2
+					}
+					if seenFail[k] < lim {
+						seenFail[k]++
 						rep.Failures = append(rep.Failures, f)
 					}
 				}
